@@ -772,9 +772,74 @@ func suiteTLS(args []string) {
 		cw.add("tls-client", fmt.Sprintf("tls client %x valid 1", tls.VersionTLS13), obs)
 		rep.Distribution["client:"+obs]++
 	}()
-	_ = viol
+	// host name: a Client whose tls.Config names no server (so the name comes from Endpoint, as tls.Dial derives it) against a
+	// server whose certificate is valid for the name "localhost" only - reached by name, by IP address, and with ONE Client
+	// reused for one after the other (whatever was verified for the first endpoint says nothing about the second)
+	func() {
+		rcfg := &tls.Config{Certificates: []tls.Certificate{p.server["dnsonly"]}, MinVersion: tls.VersionTLS12}
+		l, err := tls.Listen("tcp", "127.0.0.1:0", rcfg)
+		if err != nil {
+			panic(err)
+		}
+		defer l.Close()
+		var requests int32
+		go func() {
+			for {
+				conn, err := l.Accept()
+				if err != nil {
+					return
+				}
+				go func(conn net.Conn) {
+					defer conn.Close()
+					conn.SetDeadline(time.Now().Add(time.Second))
+					buf := make([]byte, 4096)
+					if n, _ := conn.Read(buf); n > 0 {
+						atomic.AddInt32(&requests, 1)
+						conn.Write(okReply())
+					}
+				}(conn)
+			}
+		}()
+		_, port, _ := net.SplitHostPort(l.Addr().String())
+		byName, byIP := "localhost:"+port, "127.0.0.1:"+port
+		mk := func() *kmip.Client {
+			cfg := &tls.Config{RootCAs: p.pool}
+			kmip.DefaultClientTLSConfig(cfg)
+			return &kmip.Client{TLSConfig: cfg, ReadTimeout: time.Second, WriteTimeout: time.Second}
+		}
+		try := func(c *kmip.Client, endpoint string) bool { // did a request reach the server?
+			before := atomic.LoadInt32(&requests)
+			c.Endpoint = endpoint
+			if err := c.Connect(); err == nil {
+				c.DiscoverVersions(nil)
+				c.Close()
+			}
+			time.Sleep(20 * time.Millisecond)
+			return atomic.LoadInt32(&requests) > before
+		}
+		expect := func(scenario string, got, want bool) {
+			rep.Evaluations++
+			rep.Distribution["client-hostname"]++
+			if got != want {
+				what := "a request was sent to a server whose certificate does not verify against the host name the Client was pointed at"
+				if want {
+					what = "the Client refused a server whose certificate verifies against its root pool and host name"
+				}
+				viol("tls-hostname", map[string]interface{}{"scenario": scenario, "what": what, "certificate": "valid for DNS name localhost only (no IP SAN)"})
+			}
+		}
+		expect("fresh Client, Endpoint by name", try(mk(), byName), true)
+		expect("fresh Client, Endpoint by IP address", try(mk(), byIP), false)
+		c := mk()
+		expect("reused Client: first by name", try(c, byName), true)
+		expect("reused Client: then by IP address", try(c, byIP), false)
+		expect("reused Client: by name again", try(c, byName), true)
+		c2 := mk()
+		expect("reused Client: first by IP address", try(c2, byIP), false)
+		expect("reused Client: then by name", try(c2, byName), true)
+	}()
 	cw.close()
-	rep.Evaluations = cw.n
+	rep.Evaluations += cw.n
 	rep.Nontrivial = cw.n
 	rep.Samples = append(rep.Samples, map[string]interface{}{"peer": "client certificate signed by another CA, TLS 1.3", "observed": "refused"})
 	rep.emit()
